@@ -1,11 +1,93 @@
-(* C10 -- use-base/use-local/use-remote equal resolving every open conflict to that side (placeholder, extended below). *)
-From Coq Require Import List.
+(* C10 -- use-base / use-local / use-remote equal resolving every open conflict of the open ('mergetool') merge to that
+   side; no unresolved conflict.
+
+   GOAL (full statement over the complete merge model):
+     use_side_equiv : forall side cfg_open cfg_side (differing only in use-X vs mergetool at the governed positions) b l r,
+        merged (merge cfg_side b l r) = apply b (relabel_conflicts side (decide cfg_open b l r))
+        /\ no conflicted decision governed by use-X remains.
+   Proved below: every place where a use-X strategy acts, in isolation --
+     the leaf (decisions.conflict -> tryresolve), resolve_strategy_generic, the three level dispatchers, and the root
+     (including validated() and apply_decisions) GIVEN the same builder before the root resolution (`_partial`: the
+     induction through _merge_lists/_merge_dicts/_merge_strings that shows both runs reach the same builder is not done;
+     that part of the statement is explored on the implementation by harness/props/c10.py). *)
+From Coq Require Import List String.
 From NB Require Import Base.Json.
+From NB Require Import Base.Res.
+From NB Require Import Diff.DiffFormat.
+From NB Require Import Diff.Codec.
+From NB Require Import Merge.SortKey.
+From NB Require Import Merge.Decisions.
+From NB Require Import Merge.Apply.
+From NB Require Import Merge.MergeGeneric.
 From NB Require Import Merge.StrategyBase.
 From NB Require Import Gen.Strategies.
 From NB Require Import Merge.StrategyTable.
 From NB Require Import Merge.StrategyTableProofs.
+From NB Require Import Merge.Strategies.
+From NB Require Import Merge.StrategiesProofs.
 
+(* the strings "use-base/local/remote" reach the use-side arms of all five dispatchers of the SOURCE (generated chains) *)
 Theorem use_side_strategies_reach_use_side_arms : forall side, In side sides -> use_side_accepted side = true.
 Proof. exact use_side_accepted_everywhere. Qed.
 Print Assumptions use_side_strategies_reach_use_side_arms.
+
+(* leaf level *)
+Theorem use_side_equiv_leaf :
+  forall cs B p l r side,
+  is_side side -> truthy l = true -> truthy r = true -> conflict_args_eqb cs l r = false ->
+  exists Bopen Bside,
+    b_conflict cs B p l r (Some (of_ascii "mergetool")) = Ok Bopen /\
+    b_conflict cs B p l r (Some (use_strategy side)) = Ok Bside /\
+    map drop_strategy Bside =
+      map drop_strategy B ++ relabel_conflicts (side_action side) (skipn (List.length B) (map drop_strategy Bopen)) /\
+    (List.length Bopen = S (List.length B) -> skipn (List.length B) (map d_conflict Bopen) = (true :: nil)
+                                              /\ skipn (List.length B) (map d_conflict Bside) = (false :: nil)).
+Proof. exact StrategiesProofs.use_side_equiv_leaf. Qed.
+Print Assumptions use_side_equiv_leaf.
+
+(* every level that resolves remaining conflicts *)
+Theorem use_side_generic_is_relabel :
+  forall B side, is_side side ->
+  resolve_strategy_generic B (Some (use_strategy side)) = relabel_open (side_action side) B.
+Proof. exact generic_use_side_is_relabel. Qed.
+Print Assumptions use_side_generic_is_relabel.
+
+Theorem use_side_strings_is_relabel :
+  forall B side, is_side side ->
+  resolve_conflicted_strings B (Some (use_strategy side)) = relabel_open (side_action side) B.
+Proof. exact strings_use_side_is_relabel. Qed.
+Print Assumptions use_side_strings_is_relabel.
+
+Theorem use_side_list_is_relabel :
+  forall H p base B side, is_side side ->
+  resolve_conflicted_list H p base B (Some (use_strategy side)) = Ok (relabel_open (side_action side) B).
+Proof. exact list_use_side_is_relabel. Qed.
+Print Assumptions use_side_list_is_relabel.
+
+Theorem use_side_dict_is_relabel :
+  forall H p base B side, is_side side ->
+  resolve_conflicted_dict H p base B (Some (use_strategy side)) = Ok (relabel_open (side_action side) B).
+Proof. exact dict_use_side_is_relabel. Qed.
+Print Assumptions use_side_dict_is_relabel.
+
+(* the root *)
+Theorem use_side_equiv_partial :
+  forall B side, is_side side -> all_conflicts_open B ->
+  validated (resolve_strategy_generic B (Some (use_strategy side)))
+  = relabel_conflicts (side_action side) (validated (resolve_strategy_generic B (Some (of_ascii "mergetool")))).
+Proof. exact use_side_equiv_root. Qed.
+Print Assumptions use_side_equiv_partial.
+
+Theorem use_side_merged_equal_partial :
+  forall base B side, is_side side -> all_conflicts_open B ->
+  apply_decisions base (validated (resolve_strategy_generic B (Some (use_strategy side))))
+  = apply_decisions base (relabel_conflicts (side_action side)
+                            (validated (resolve_strategy_generic B (Some (of_ascii "mergetool"))))).
+Proof. exact use_side_equiv_root_merged. Qed.
+Print Assumptions use_side_merged_equal_partial.
+
+Theorem use_side_no_conflict_partial :
+  forall B side, is_side side -> all_conflicts_open B ->
+  Forall (fun d => d_conflict d = false) (validated (resolve_strategy_generic B (Some (use_strategy side)))).
+Proof. exact use_side_root_no_conflict. Qed.
+Print Assumptions use_side_no_conflict_partial.
